@@ -166,6 +166,15 @@ def plans(chk):
             out.append(mkplan(rng, 'before_open', 'exit', n, 2, file=0,
                               slow_submit=0.4))
             out.append(mkplan(rng, 'line', 'bad_utf8', n, 3))
+    # exactly ONE file: the task runs in the calling process (_run_single),
+    # nothing between execute() and the caller may need to translate its
+    # exception (fixed plans, no randomness)
+    out.append({'nfiles': 1, 'workers': 1, 'file': 0, 'point': 'line',
+                'kind': 'raise', 'k': 10, 't1': 12, 't2': 6})
+    out.append({'nfiles': 1, 'workers': 2, 'file': 0, 'point': 'line',
+                'kind': 'bad_gzip_crc', 'k': 1, 't1': 12, 't2': 6})
+    out.append({'nfiles': 1, 'workers': 1, 'file': 0, 'point': 'line',
+                'kind': 'raise_ude', 'k': 3, 't1': 12, 't2': 6})
     for i, p in enumerate(out):
         p['id'] = i
     return out
@@ -263,6 +272,8 @@ def short(plan):
     s = f"point={plan['point']} kind={plan['kind']}"
     if plan.get('slow_submit'):
         s += ' during-submit'
+    if plan['nfiles'] == 1:
+        s += ' single-file'
     if plan.get('slow'):
         s += ' sibling-busy'
     if plan.get('park'):
